@@ -48,6 +48,17 @@ def outcome(rec):
     return ('ok', canon(rec.get('result')))
 
 
+def stable_text(c):
+    """text of a canonical form that never trips the int->str digit limit (huge ints are written in hex)"""
+    if isinstance(c, tuple):
+        return '(' + ','.join(stable_text(x) for x in c) + ')'
+    if isinstance(c, bool) or c is None:
+        return repr(c)
+    if isinstance(c, int):
+        return hex(c) if abs(c) >= 10 ** 18 else str(c)
+    return repr(c)
+
+
 def show(v, limit=200):
     try:
         s = repr(v)
